@@ -8,6 +8,7 @@
 //! a replay goes through exactly the same path as the original run.
 mod fam_access;
 mod fam_dyn;
+mod fam_pmod;
 mod fam_admission;
 mod fam_liq;
 mod fam_math;
@@ -66,6 +67,7 @@ pub fn families() -> Vec<Box<dyn Family>> {
     fam_position::register(&mut v);
     fam_admission::register(&mut v);
     fam_dyn::register(&mut v);
+    fam_pmod::register(&mut v);
     v
 }
 
